@@ -48,9 +48,10 @@ class C15:
             st = st[:28]   # the fixed catalogue plus the first stacks of the cover; the thorough tier takes all
         bm = zoo.isa_flags()
         extra = []
-        if "ndebug" in cfg_name:
-            # the oracles of the cheap E1 harnesses must hold in the release configuration as well (a defect that only
-            # exists with NDEBUG, e.g. a side effect inside assert(), is invisible to their own assertion-enabled builds)
+        if True:   # every configuration (under valgrind they are skipped, see below)
+            # the oracles of the cheap E1 harnesses must hold in every configuration (a defect that only exists with NDEBUG,
+            # e.g. a side effect inside assert(), is invisible to their own assertion-enabled builds; one that only exists
+            # with assertions, e.g. an over-strict debug check, is invisible to a release build)
             for tag, src, defs in (("nn", "prop_C04.cpp", []), ("affine", "prop_C09.cpp", []), ("clamp", "prop_C10.cpp", ["VF_GROUP=0"]), ("default", "prop_C11.cpp", []),
                                    ("numeric", "prop_C18.cpp", []), ("ndmap", "prop_C19.cpp", []), ("curves", "prop_C14.cpp", [])):
                 extra.append(H(f"c15_{cfg_name}_{tag}", src, shards=8, flags=flags + bm, link_flags=link, defines=defs))
